@@ -47,6 +47,10 @@ def detect(patch, props):
     rc, o = sh("git -C /repo status --short")
     assert o.strip() == "", "/repo is not clean: " + o
     rc, o = sh("git -C /repo apply %s" % patch)
+    if rc != 0:
+        # written against an earlier commit: let patch(1) place the hunks
+        sh("git -C /repo checkout -- .")
+        rc, o = sh("patch -p1 -F3 --no-backup-if-mismatch -d /repo < %s" % patch)
     assert rc == 0, o
     # the evidence files describe the unchanged tree: keep them
     import shutil
